@@ -308,6 +308,7 @@ fn main() {
             s.require("transport:grpc", if quick { 100 } else { 4000 });
             s.require("gzip:on", if quick { 100 } else { 4000 });
             s.require("gzip:off", if quick { 100 } else { 4000 });
+            s.require("request:gzip-body-still>64KiB-compressed", if quick { 50 } else { 2000 });
             for f in ["status-5xx", "status-4xx", "close-before-read", "read-then-close", "grpc-status", "grpc-trailers-only-status", "grpc-http-status", "ack-then-close"] {
                 s.require(&format!("fault:{f}"), if quick { 4 } else { 200 });
             }
